@@ -53,7 +53,7 @@ def run(ck, prog, ctx):
     at = Atomic(prog, is_lookup, is_unchecked)
     # structural sanity of the arena accessors the rule relies on
     for n in ("get", "get_mut", "get_unchecked", "get_unchecked_mut"):
-        ck.anchor("ATOMIC", "Arena::" + n + " (private helper the rule is phrased over)", prog.body(ARENA + "::" + n))
+        ck.anchor("ATOMIC", "Arena::" + n + " (private helper the rule is phrased over)", prog.body(ARENA + "::" + n), private=True)
     for m in sorted(ms, key=lambda b: b.id):
         P, sites, results = at.check_method(m)
         pnames = {p: m.local_name(p) for p in P}
